@@ -51,6 +51,7 @@ func init() {
 			NRandom: 60, MaxTraces: 60,
 			Gen:   genParams{NBlob: 12, NTree: 14, NCommit: 12, NTag: 5, MaxEnt: 4, MaxBlob: 300, Merges: true, RootKinds: "mixed"},
 			Fails: scanFails["C01"],
+			Extra: wideCases("c01"),
 			Rule: "TLC family Mixed (<=2 blobs, 2 trees, 2 commits, 1 tag; roots of every kind, walked or not, references or ROOT arguments) x all delivery orders, every behaviour replayed into sizes.Graph; plus materialised repositories (TLC graphs and random graphs with merges, shared subtrees, tags of anything, noise, unselected refs, ROOT arguments) scanned by the binary; distinct = distinct (graph, roots, order) / (graph, arguments)",
 		}
 		if !quick(c) {
@@ -137,11 +138,14 @@ func init() {
 		tr := baseCfg("Scan_Trees", "Trees")
 		tr.NTree, tr.MaxEnt = 2, 2
 		tr.BlobSizes, tr.NameLens = "Seq_3_5", "Seq_1_2"
+		ch := baseCfg("Scan_Trees3_chains", "Trees")
+		ch.NTree, ch.MaxEnt, ch.EntKinds, ch.BlobSizes = 3, 2, []string{"file", "tree"}, "Seq_3"
 		p := scanProfile{
-			Check: []scanCfg{tr}, Export: []scanCfg{tr}, MaxAPI: 8000, MaxCLIFromTLC: 80,
+			Check: []scanCfg{tr, ch}, Export: []scanCfg{tr, ch}, MaxAPI: 30000, MaxCLIFromTLC: 80,
 			NRandom: 50, MaxTraces: 60,
 			Gen:   genParams{NBlob: 8, NTree: 18, NCommit: 4, NTag: 2, MaxEnt: 5, MaxBlob: 200, Merges: false, RootKinds: "mixed", SpecialNames: true},
 			Fails: scanFails["C04"],
+			Extra: wideCases("c04"),
 			Rule: "TLC family Trees (all DAGs of pairwise distinct trees, entries file/link/submodule/subtree, names of different lengths, stray trees as roots) x all delivery orders: every finalized tree must equal its recursive expansion on 7 dimensions; random tree DAGs with sharing, repetition, empty trees and odd names scanned by the binary; distinct = distinct (graph, order) / (graph, arguments)",
 		}
 		if !quick(c) {
@@ -162,10 +166,13 @@ func init() {
 		tg.NTag = 3
 		cm := baseCfg("Scan_Commits", "Commits")
 		cm.NCommit = 3
+		ch := baseCfg("Scan_Trees3_chains", "Trees")
+		ch.NTree, ch.MaxEnt, ch.EntKinds, ch.BlobSizes = 3, 2, []string{"file", "tree"}, "Seq_3"
 		p := scanProfile{
-			Check: []scanCfg{tr, tg, cm}, Export: []scanCfg{tr, tg, cm}, MaxAPI: 0, MaxCLIFromTLC: 30,
+			Check: []scanCfg{tr, ch, tg, cm}, Export: []scanCfg{tr, ch, tg, cm}, MaxAPI: 0, MaxCLIFromTLC: 30,
 			NRandom: 0, MaxTraces: 40, Relational: true,
 			Fails: scanFails["C09"],
+			Extra: wideCases("c09"),
 			Rule: "every delivery order (all permutations of trees, tags, blobs; all parents-first commit orders) of every graph of the TLC families Trees, Tags, Commits replayed into sizes.Graph: all orders of one graph must agree and equal the oracle; the same graphs materialised with permuted dates, root order and storage layouts must give identical numbers; distinct = distinct (graph, order) / (graph, layout)",
 		}
 		if !quick(c) {
